@@ -55,7 +55,7 @@ def rand_kw(rng, cls, allow_input=True, max_period=40):
                "HighestLowest", "VWAP"):
         kw["period"] = P()
     if cls == "HMA":
-        kw["period"] = rng.choice([4, 5, 9, 10, 16, 20, rng.randint(4, max(4, max_period))])
+        kw["period"] = rng.choice([2, 3, 4, 5, 9, 10, 16, 20, rng.randint(2, max(4, max_period))])  # 2 and 3: both helper WMAs have period 1
     if cls == "EMA" and rng.random() < 0.2:
         kw["smoothing"] = rng.choice([1.0, 1.5, 2.0, 3.0])
     if cls in ("KC", "Supertrend", "StandardDeviationThreshold"):
